@@ -9,7 +9,8 @@
    2 n edges direct start depth outcomes     recursive strategy vs Check/V1Recursive.rec_check
    3 op streams values failed                fast paths vs Check/V1Weight2.fp_*_c
    4 left right outcomes                     weight2 vs Check/V1Weight2.weight2 (all schedules)
-   5 model conds tuples atoms maxdepth subjects   ListObjects engines vs {o | holds3 = T} *)
+   5 model conds tuples atoms maxdepth subjects   ListObjects engines vs {o | holds3 = T}
+   6 ctxt stored objs failed                 sorted ReadStartingWithUser producer vs V1FastPathSource.source_impl *)
 
 let aout_s = function AT -> "T" | AFn -> "F" | AFc -> "Fcycle" | AEc -> "Econd" | AEd -> "Edepth" | AEo -> "Eother" | AFuel -> "FUEL"
 let impl_s = function 0 -> "T" | 1 -> "F" | 2 -> "Fcycle" | 3 -> "Econd" | 4 -> "Edepth" | 5 -> "Eother" | 6 -> "timeout" | 7 -> "invalid" | _ -> "?"
@@ -318,12 +319,21 @@ let kind5 model conds tuples atoms maxdepth subjects =
   | ps, _ -> "PROP " ^ String.concat " || " (List.filteri (fun i _ -> i < 6) ps)
   end
 
+(* ---- kind 6 ---- *)
+let kind6 ctxt stored objs failed =
+  let dec l = List.map (fun p -> match ints p with [o; c] -> (n_of_int o, n_of_int c) | _ -> failwith "stup") (as_list l) in
+  let (mo, me) = source_impl (dec ctxt) (dec stored) in
+  let objs = ints objs and failed = as_int failed <> 0 in
+  if il mo = objs && me = failed then "OK"
+  else Printf.sprintf "DIFF sorted producer impl=%s failed=%b model=%s failed=%b" (show objs) failed (show (il mo)) me
+
 let f _id vs =
   match vs with
   | [I "1"; model; conds; tuples; atoms; maxdepth; subjects] -> kind1 model conds tuples atoms maxdepth subjects
   | [I "2"; _n; edges; direct; start; depth; outs] -> kind2 edges direct start depth outs
   | [I "3"; op; streams; vals; failed] -> kind3 op streams vals failed
   | [I "4"; left; right; outs] -> kind4 left right outs
+  | [I "6"; ctxt; stored; objs; failed] -> kind6 ctxt stored objs failed
   | [I "5"; model; conds; tuples; atoms; maxdepth; subjects] -> kind5 model conds tuples atoms maxdepth subjects
   | _ -> "DIFF malformed-record"
 
